@@ -297,6 +297,9 @@ def gen_case(seed, idx, tier):
              "one_of-none": "one_of", "excluded": "excludes", "missing-required": "requires", "drop-mandatory": "mandatory"}.get(target)
     if force and rng.random() < 0.8:
         prof["force"] = force
+        if force in ("requires", "excludes") and rng.random() < 0.4:
+            prof["force"] = force + "-overlap"
+            prof["nargs"] = (5, 8)
     cfg = gen.gen_config(rng, prof)
     uses = gen.gen_valid_line(rng, cfg)
     if uses is None:
